@@ -6,6 +6,7 @@
 From Coq Require Import ZArith List Bool Lia ZifyBool.
 From PV Require Import Lib.PyBase Spec.Cal Spec.Zone Spec.NativeDT Proofs.CalFacts Proofs.ZoneFacts Gen.AddDuration Model.TzConvert.
 From PV Require Import Proofs.C03Facts Proofs.StdlibDTFacts Model.TzGlueObj Gen.TzGlue Model.WallHistory.
+From PV Require Import Spec.TdFloat Model.Duration Model.CalendarArith.
 Import ListNotations.
 Ltac Zify.zify_post_hook ::= Z.to_euclidean_division_equations.
 Open Scope Z_scope.
@@ -547,4 +548,142 @@ Proof.
   rewrite glue_create_fields; [| exact F | rewrite wall_of_split, Ho, Ht; cbn [g_wall d dt_of]; replace (_ + _) with W by (unfold us_per_day; lia); exact R].
   rewrite wall_of_split, Ho, Ht. cbn [g_wall d dt_of]. replace ((W / us_per_day + 1 - 1) * us_per_day + W mod us_per_day) with W by (unfold us_per_day; lia).
   destruct (g_build T W f false); reflexivity.
+Qed.
+
+(* ---------- DateTime.add / subtract as a whole = dt_add / dt_subtract of Model/CalendarArith.v ---------- *)
+Definition tzk_of (tzo : option gtz) : tzk := match tzo with None => Naive | Some t => Aware (gz_zone t) (gz_fixed t) end.
+Definition tzo_ok (tzo : option gtz) : Prop := match tzo with Some t => gtz_ok t /\ same_obj g_UTC t | None => True end.
+(* side conditions of one addition: the timedelta of the fixed part exists, and add_duration's result lies in years 1..9999 *)
+Definition add_side (W y mo wk d h m s us : Z) : Prop :=
+  -999999999 <= td_total_us 0 h m s us / us_per_day <= 999999999 /\
+  (forall r, py_add_duration (mkndt W true) y mo wk d h m s us = Ok r -> wall_in_range (n_wall r) = true).
+
+Theorem glue_dt_add tzo W f y mo wk d h m s us : wall_in_range W = true -> tzo_ok tzo -> add_side W y mo wk d h m s us ->
+  glue_DateTime_add (dt_of W f tzo) y mo wk d h m s us = res_of tzo (dt_add (tzk_of tzo) W f y mo wk d h m s us).
+Proof.
+  intros R Ok_ [Hlim Hres]. destruct tzo as [t|]; cbn [tzk_of dt_add].
+  - destruct Ok_ as [Ot S]. change (any_cal y mo wk d) with (var_units y mo wk d). destruct (var_units y mo wk d) eqn:V.
+    + apply glue_add_calendar; assumption.
+    + unfold var_units in V. assert (y = 0 /\ mo = 0 /\ wk = 0 /\ d = 0) as (-> & -> & -> & ->) by lia.
+      apply glue_add_fixed; assumption.
+  - apply glue_add_naive; assumption.
+Qed.
+
+Lemma glue_subtract_is_add dt y mo wk d h m s us :
+  glue_DateTime_subtract dt y mo wk d h m s us = glue_DateTime_add dt (- y) (- mo) (- wk) (- d) (- h) (- m) (- s) (- us).
+Proof. unfold glue_DateTime_subtract. destruct (glue_DateTime_add _ _ _ _ _ _ _ _ _); reflexivity. Qed.
+
+Theorem glue_dt_subtract tzo W f y mo wk d h m s us : wall_in_range W = true -> tzo_ok tzo ->
+  add_side W (- y) (- mo) (- wk) (- d) (- h) (- m) (- s) (- us) ->
+  glue_DateTime_subtract (dt_of W f tzo) y mo wk d h m s us = res_of tzo (dt_subtract (tzk_of tzo) W f y mo wk d h m s us).
+Proof. intros. rewrite glue_subtract_is_add. unfold dt_subtract. apply glue_dt_add; assumption. Qed.
+
+(* ---------- the operators with a Duration / Interval operand ---------- *)
+Definition gop_of_iv (y mo wk rd h mi rs us N : Z) : gop := mkgop 2 N y mo wk rd h mi rs us [].
+Definition gop_of_dur (d : dur) : gop :=
+  mkgop 1 (d_N d) (d_years d) (d_months d) (d_weeks d) (d_rdays d) (dur_hours d) (dur_minutes d) (dur_remaining_seconds d) (d_micro d) (d_sig d).
+(* "DateTime.add agrees with the model on this value for all arguments" (discharged by glue_dt_add under its side conditions) *)
+Definition add_agrees (tzo : option gtz) (W : Z) (f : bool) : Prop :=
+  forall y mo wk d h m s us, glue_DateTime_add (dt_of W f tzo) y mo wk d h m s us = res_of tzo (dt_add (tzk_of tzo) W f y mo wk d h m s us).
+
+Theorem glue_add_interval_operand tzo W f y mo wk rd h mi rs us N total : add_agrees tzo W f ->
+  g_add_timedelta (dt_of W f tzo) (gop_of_iv y mo wk rd h mi rs us N) = res_of tzo (dt_add_timedelta (tzk_of tzo) W f (OpIv y mo wk rd h mi rs us total)).
+Proof.
+  intros A. unfold g_add_timedelta, glue_DateTime_add_timedelta_interval, gop_of_iv. cbn [op_kind op_years op_months op_weeks op_rdays op_hours op_minutes op_rsecs op_micro Z.eqb Pos.eqb].
+  rewrite A. cbn [dt_add_timedelta]. destruct (res_of _ _); reflexivity.
+Qed.
+
+Theorem glue_add_duration_operand tzo W f d : add_agrees tzo W f ->
+  g_add_timedelta (dt_of W f tzo) (gop_of_dur d) = res_of tzo (dt_add_timedelta (tzk_of tzo) W f (OpDur d)).
+Proof.
+  intros A. unfold g_add_timedelta, glue_DateTime_add_timedelta_duration, g_add_signature, gop_of_dur. cbn [op_kind op_sig Z.eqb Pos.eqb dt_add_timedelta].
+  destruct (d_sig d) as [|y [|mo [|wk [|dd [|h [|mi [|s [|us [|x l]]]]]]]]]; try reflexivity.
+  rewrite A. destruct (res_of _ _); reflexivity.
+Qed.
+
+Theorem glue_sub_duration_operand tzo W f d : add_agrees tzo W f ->
+  g_subtract_timedelta (dt_of W f tzo) (gop_of_dur d) = res_of tzo (dt_sub_timedelta (tzk_of tzo) W f (OpDur d)).
+Proof.
+  intros A. unfold g_subtract_timedelta, glue_DateTime_subtract_timedelta_duration, gop_of_dur.
+  cbn [op_kind op_years op_months op_weeks op_rdays op_hours op_minutes op_rsecs op_micro Z.eqb Pos.eqb orb dt_sub_timedelta].
+  rewrite glue_subtract_is_add, A. unfold dt_sub_components, dt_subtract. destruct (res_of _ _); reflexivity.
+Qed.
+
+Theorem glue_sub_interval_operand tzo W f y mo wk rd h mi rs us N total : add_agrees tzo W f ->
+  g_subtract_timedelta (dt_of W f tzo) (gop_of_iv y mo wk rd h mi rs us N) = res_of tzo (dt_sub_timedelta (tzk_of tzo) W f (OpIv y mo wk rd h mi rs us total)).
+Proof.
+  intros A. unfold g_subtract_timedelta, glue_DateTime_subtract_timedelta_duration, gop_of_iv.
+  cbn [op_kind op_years op_months op_weeks op_rdays op_hours op_minutes op_rsecs op_micro Z.eqb Pos.eqb orb dt_sub_timedelta].
+  rewrite glue_subtract_is_add, A. unfold dt_subtract. destruct (res_of _ _); reflexivity.
+Qed.
+
+(* DateTime.__add__: the native addition when called from astimezone's frame, else _add_timedelta_; __radd__ passes False *)
+Theorem glue_dunder_add dt o called :
+  glue_DateTime___add__ dt o called = if called then nat_add dt (op_us o) else g_add_timedelta dt o.
+Proof. unfold glue_DateTime___add__, nat_add_op. destruct called; [destruct (nat_add _ _)|destruct (g_add_timedelta _ _)]; reflexivity. Qed.
+Theorem glue_dunder_radd dt o : glue_DateTime___radd__ dt o = g_add_timedelta dt o.
+Proof. unfold glue_DateTime___radd__. rewrite glue_dunder_add. destruct (g_add_timedelta dt o); reflexivity. Qed.
+
+(* ---------- Date.add / subtract / _add_timedelta / _subtract_timedelta / __add__ / __sub__(timedelta) = Model/CalendarArith.v date_* ---------- *)
+Definition gres_date (r : result Z) : result gdate := match r with Ok W => Ok (mkgdate W) | Raise e => Raise e end.
+Definition midnight (W : Z) : Prop := wall_in_range W = true /\ W mod us_per_day = 0.
+(* add_duration's result on this date is again a date of years 1..9999 (its own range checks; stated as a side condition) *)
+Definition date_side (W y mo wk d : Z) : Prop :=
+  forall r, py_add_duration (mkndt W false) y mo wk d 0 0 0 0 = Ok r -> midnight (n_wall r).
+
+Lemma date_rebuild W : midnight W -> nat_date_new (gd_year (mkgdate W)) (gd_month (mkgdate W)) (gd_day (mkgdate W)) = Ok (mkgdate W).
+Proof.
+  intros [R M]. destruct (own_fields (mkgdt W 0 None) R) as ((Hy & Hv & _) & Ho & _).
+  change (g_year (mkgdt W 0 None)) with (gd_year (mkgdate W)) in *. change (g_month (mkgdt W 0 None)) with (gd_month (mkgdate W)) in *.
+  change (g_day (mkgdt W 0 None)) with (gd_day (mkgdate W)) in *. cbn [g_wall] in Ho.
+  unfold nat_date_new. rewrite Hv, Ho. replace ((1 <=? gd_year (mkgdate W)) && (gd_year (mkgdate W) <=? 9999)) with true by lia. cbn [andb].
+  f_equal. f_equal. unfold us_per_day in *. lia.
+Qed.
+
+Theorem glue_date_add W y mo wk d : midnight W -> date_side W y mo wk d ->
+  glue_Date_add (mkgdate W) y mo wk d = gres_date (date_add W y mo wk d).
+Proof.
+  intros M S. unfold glue_Date_add, date_add, g_add_duration_date. rewrite (date_rebuild W M). cbv beta iota zeta. cbn [gd_wall].
+  destruct (py_add_duration (mkndt W false) y mo wk d 0 0 0 0) as [r|e] eqn:E; [|reflexivity]. cbv beta iota zeta.
+  rewrite (date_rebuild _ (S r E)). reflexivity.
+Qed.
+
+Lemma glue_date_subtract_is_add dt y mo wk d : glue_Date_subtract dt y mo wk d = glue_Date_add dt (- y) (- mo) (- wk) (- d).
+Proof. unfold glue_Date_subtract. destruct (glue_Date_add _ _ _ _ _); reflexivity. Qed.
+
+Theorem glue_date_subtract W y mo wk d : midnight W -> date_side W (- y) (- mo) (- wk) (- d) ->
+  glue_Date_subtract (mkgdate W) y mo wk d = gres_date (date_subtract W y mo wk d).
+Proof. intros. rewrite glue_date_subtract_is_add. unfold date_subtract. apply glue_date_add; assumption. Qed.
+
+Definition gop_of_td (N : Z) : gop := mkgop 0 N 0 0 0 0 0 0 0 0 [].
+Definition date_agrees (W : Z) : Prop := forall y mo wk d, glue_Date_add (mkgdate W) y mo wk d = gres_date (date_add W y mo wk d).
+
+Theorem glue_date_add_timedelta_td W N : date_agrees W ->
+  glue_Date___add__ (mkgdate W) (gop_of_td N) = gres_date (date_add_timedelta W (OpTd N)).
+Proof.
+  intros A. unfold glue_Date___add__, g_date_add_timedelta, glue_Date_add_timedelta_plain, gop_of_td, op_days. cbn [op_kind op_us Z.eqb date_add_timedelta].
+  rewrite A. change US_PER_DAY with us_per_day. destruct (gres_date _); reflexivity.
+Qed.
+Theorem glue_date_add_timedelta_dur W d : date_agrees W ->
+  glue_Date___add__ (mkgdate W) (gop_of_dur d) = gres_date (date_add_timedelta W (OpDur d)).
+Proof.
+  intros A. unfold glue_Date___add__, g_date_add_timedelta, glue_Date_add_timedelta_duration, gop_of_dur.
+  cbn [op_kind op_years op_months op_weeks op_rdays Z.eqb Pos.eqb date_add_timedelta]. rewrite A. destruct (gres_date _); reflexivity.
+Qed.
+Theorem glue_date_add_timedelta_iv W y mo wk rd h mi rs us N total : date_agrees W ->
+  glue_Date___add__ (mkgdate W) (gop_of_iv y mo wk rd h mi rs us N) = gres_date (date_add_timedelta W (OpIv y mo wk rd h mi rs us total)).
+Proof.
+  intros A. unfold glue_Date___add__, g_date_add_timedelta, glue_Date_add_timedelta_duration, gop_of_iv.
+  cbn [op_kind op_years op_months op_weeks op_rdays Z.eqb Pos.eqb date_add_timedelta]. rewrite A. destruct (gres_date _); reflexivity.
+Qed.
+Theorem glue_date_sub_timedelta W op : date_agrees W ->
+  glue_Date___sub___timedelta (mkgdate W)
+    (match op with OpTd N => gop_of_td N | OpDur d => gop_of_dur d | OpIv y mo wk rd h mi rs us _ => gop_of_iv y mo wk rd h mi rs us 0 end)
+  = gres_date (date_sub_timedelta W op).
+Proof.
+  intros A. unfold glue_Date___sub___timedelta, g_date_subtract_timedelta, glue_Date_subtract_timedelta_plain, glue_Date_subtract_timedelta_duration.
+  destruct op as [N|d|y mo wk rd h mi rs us total]; unfold gop_of_td, gop_of_dur, gop_of_iv, op_days;
+  cbn [op_kind op_us op_years op_months op_weeks op_rdays Z.eqb Pos.eqb date_sub_timedelta];
+  rewrite glue_date_subtract_is_add, A; unfold date_subtract; change US_PER_DAY with us_per_day;
+  replace (- 0) with 0 by lia; destruct (gres_date _); reflexivity.
 Qed.
